@@ -300,7 +300,7 @@ H(name="env_const_alias_guard", crate="kestrel-cli", mod="keyring::verif_keyring
 H(name="estr_selftest", crate="kestrel-cli", mod="keyring::verif_keyring", props=["C17"], est_s=30, timeout=900, replay="model",
   desc="E-STR self-test: lines / trim / retain / split_once models called through their std names give the documented results on concrete texts (guards the environment model, not kestrel)", funcs=[], bounds="concrete", env=["E-STR"], outside="-")
 for _n, _l, _est in (("c17_tokens_l4", 4, 3000), ("c17_tokens_l6", 6, 5000)):
-    H(name=_n, crate="kestrel-cli", mod="keyring::verif_keyring", props=["C17", "C09"], auto_props=["C09", "C17"], tier="thorough", optional=True, est_s=_est, timeout=5400, mem_gb=20, rlimit_gb=40, replay="model", cbmc_args=["--max-field-sensitivity-array-size", "128"],
+    H(name=_n, crate="kestrel-cli", mod="keyring::verif_keyring", props=["C17", "C09"], auto_props=["C09", "C17"], tier="thorough", optional=True, est_s=_est, timeout=3600, mem_gb=20, rlimit_gb=40, replay="model", cbmc_args=["--max-field-sensitivity-array-size", "128"],
       desc="Keyring::new on EVERY file of %d lines, each line one of 10 tokens ([Key], Name=a|b, PublicKey=P|Q, malformed PrivateKey, comment, blank, junk, field without value), solver-chosen: accepted iff a token-level state machine of the documented rule accepts; on acceptance the entries are the sections in order; never a panic" % _l,
       funcs=["keyring::Keyring::new", "keyring::Keyring::parse_config", "keyring::Keyring::add_key", "keyring::Keyring::valid_key_name", "keyring::EncodedPk::try_from", "keyring::EncodedSk::try_from"],
       bounds="10^%d files: %d lines x 10 tokens, each padded with blanks to 14 columns (concrete layout, solver-chosen content); shorter files are covered through blank lines" % (_l, _l), env=KR_ENV[2:3] + ["E-STR (see c17_shapes)"], outside=PARSER_OUT + "; well-formed PrivateKey lines (the E-B64 model has one decode length per run)")
@@ -343,8 +343,8 @@ PROPERTIES = {
          "outside": "two or more faults per run; short-I/O harnesses on one chunk only (write_all/read_exact are std code)", "assumptions": [A_AEAD, A_TB, A_KANI]},
  "C11": {"claim": "Streaming within bound: at every source read the input consumed beyond what has been completely written is <= 2 chunks (encrypt) / 2 records (decrypt), for files of up to 4-5 chunks; every read request and AEAD input <= chunk+16.",
          "outside": "GiB inputs themselves and peak-heap constancy (the counting-allocator harness of the design was not built); independence of n beyond the bound is by the loop's shape", "assumptions": [A_AEAD, A_KANI]},
- "C12": {"claim": "Function level: each command returns Ok iff every pre-check passed and the library call returned Ok (never swallowed, never manufactured), for every combination of prior output-path state, keyring state, prompt/unlock/checksum outcome and library outcome; main calls exit(1) iff try_main failed; sender naming by exact encoded key; the password commands behave the same with stdin in place of the input file and/or stdout in place of -o (nothing created on disk, every library write reaches stdout, terminals refused, library called whenever every pre-check passes); OnDemandFile flush creates the file (empty plaintext still produces the output file).",
-         "outside": "the real process exit code, getopts long/short/alias tables, OS pipe-vs-file semantics, message texts: not encodable here (E-CUT, E-OS); stdin/stdout wiring of the key-mode commands; -k vs KESTREL_KEYRING (open_keyring is environment)", "assumptions": [A_TB, A_KANI]},
+ "C12": {"claim": "Function level: each command returns Ok iff every pre-check passed and the library call returned Ok (never swallowed, never manufactured), for every combination of prior output-path state, keyring state, prompt/unlock/checksum outcome and library outcome; main calls exit(1) iff try_main failed; sender naming by exact encoded key; the password commands behave the same with stdin in place of the input file (terminal refused, library called whenever every pre-check passes; stdout in place of -o - nothing created on disk, every library write reaches stdout - is a thorough-tier attempt: it ran out of memory at 36 GB); the keyring is opened the same way from -k and from KESTREL_KEYRING; OnDemandFile flush creates the file (empty plaintext still produces the output file).",
+         "outside": "the real process exit code, getopts long/short/alias tables, OS pipe-vs-file semantics, message texts: not encodable here (E-CUT, E-OS); stdin/stdout wiring of the key-mode commands", "assumptions": [A_TB, A_KANI]},
  "C13": {"claim": "For encrypt, decrypt, password encrypt/decrypt, key generate: if the command fails before the library call, or the library fails before its first write, the output path is untouched (exists/length/content, no create); if the library wrote k bytes then failed (any error kind), the path holds exactly those bytes and Err is returned; no command removes or renames the output path; library side: nothing written/flushed before handshake success / first chunk verification.",
          "outside": "as C12", "assumptions": [A_TB, A_KANI]},
  "C14": {"claim": "gen_key(Some(path)) from an ARBITRARY prior state of the path (absent | any 0..4 bytes): on success the earlier contents are a byte prefix of the new contents, an existing file is never re-created/truncated, a new one is created once, the result is flushed; one inductive step from an arbitrary state covers every history. A section appended to a file whose last line is unterminated starts on a new line. The appended section parses back (c17_names_concrete, c17_shapes: two appended generations).",
